@@ -376,9 +376,12 @@ pub fn check(_ctx: &Ctx, input: &Input) -> CaseResult {
         out.label("skip:input-invalid");
         return Ok(out);
     }
-    for (gc, synthetic) in [(false, false), (false, true), (true, false)] {
+    // the fourth pass switches the producers section off: names are a
+    // separate switch and must be unaffected
+    for (gc, synthetic, producers) in [(false, false, true), (false, true, true), (true, false, true), (false, false, false)] {
         let cfg = wal::Cfg {
             synthetic_names: synthetic,
+            producers,
             ..wal::Cfg::plain()
         };
         let b = match wal::roundtrip(&p.bytes, cfg, gc) {
@@ -394,16 +397,102 @@ pub fn check(_ctx: &Ctx, input: &Input) -> CaseResult {
         };
         check_mode(&p.bytes, &b, gc, synthetic, &p.origin, &mut out)?;
     }
+    export_replacement_mode(&p, &mut out)?;
     if out.nontrivial {
         out.sample = Some(json!({"origin": p.origin, "bytes": p.bytes.len(), "labels": out.labels}));
     }
     Ok(out)
 }
 
+/// After `replace_exported_func` every input function is still emitted (the
+/// replacement is an additional function): each keeps its name. Identity is
+/// witnessed by the generator's per-function tag, no bijection needed.
+fn export_replacement_mode(p: &Prepared, out: &mut CaseOut) -> Result<(), Failure> {
+    let da = match decode(&p.bytes) {
+        Ok(d) => d,
+        Err(_) => return Ok(()),
+    };
+    let n_imp = da.imp_funcs.len() as u32;
+    let target = match da.exports.iter().find(|e| e.kind == crate::decode::ExtKind::Func && e.index >= n_imp) {
+        Some(e) => e.index,
+        None => return Ok(()),
+    };
+    let in_tags: Vec<Option<i64>> = (0..da.n_funcs()).map(|i| da.func_tag(i)).collect();
+    let mut seen = std::collections::HashSet::new();
+    if !in_tags.iter().flatten().all(|t| seen.insert(*t)) || in_tags[n_imp as usize..].iter().any(|t| t.is_none()) {
+        return Ok(());
+    }
+    let na = match decode_names(&p.bytes) {
+        Ok(n) if !n.funcs.is_empty() => n,
+        _ => return Ok(()),
+    };
+    let slot = std::sync::Arc::new(std::sync::Mutex::new(None));
+    let s2 = slot.clone();
+    let mut cfg = wal::Cfg::plain().to_config();
+    cfg.on_parse(move |_m, ids| {
+        *s2.lock().unwrap() = Some(ids.get_func(target)?);
+        Ok(())
+    });
+    let mut m = match wal::parse(&p.bytes, &cfg) {
+        Ok(Ok(m)) => m,
+        _ => return Ok(()),
+    };
+    let fid = match *slot.lock().unwrap() {
+        Some(f) => f,
+        None => return Ok(()),
+    };
+    let r = guard("replace_exported_func", || {
+        m.replace_exported_func(fid, |(b, _)| {
+            b.unreachable();
+        })
+        .is_ok()
+    });
+    if !matches!(r, Ok(true)) {
+        return Ok(()); // C18's business
+    }
+    let edited = match wal::emit(&mut m) {
+        Ok(b) => b,
+        Err(_) => return Ok(()),
+    };
+    let (db, nb) = match (decode(&edited), decode_names(&edited)) {
+        (Ok(d), Ok(n)) => (d, n),
+        _ => return Ok(()),
+    };
+    for (i, name) in &na.funcs {
+        let t = match in_tags.get(*i as usize).copied().flatten() {
+            Some(t) => t,
+            None => continue,
+        };
+        let js: Vec<u32> = (0..db.n_funcs()).filter(|j| db.func_tag(*j) == Some(t)).collect();
+        if js.len() != 1 {
+            continue;
+        }
+        if nb.funcs.get(&js[0]) != Some(name) {
+            return Err(Failure::new(
+                "function-name-lost-or-changed:after-export-replacement",
+                format!(
+                    "input function {} (tag {:#x}) is named {:?}; after replace_exported_func on function {} it is emitted at index {} named {:?} [{}]",
+                    i, t, name, target, js[0], nb.funcs.get(&js[0]), p.origin
+                ),
+            ));
+        }
+    }
+    for (j, name) in &nb.funcs {
+        if db.body(*j).is_some() && db.func_tag(*j).is_none() && na.funcs.values().any(|n| n == name) {
+            return Err(Failure::new(
+                "function-name-migrated:after-export-replacement",
+                format!("the function built by replace_exported_func (output index {}) carries the input name {:?} [{}]", j, name, p.origin),
+            ));
+        }
+    }
+    out.label("mode:after-export-replacement");
+    Ok(())
+}
+
 fn run(ctx: &Ctx) {
     let plans = [GenPlan {
         gen: "names",
-        cases: ctx.tier.pick(20_000, 400_000),
+        cases: ctx.tier.pick(100_000, 1_000_000),
         min_len: 0,
         max_len: ctx.tier.pick(1500, 3000),
     }];
